@@ -215,6 +215,13 @@ func (ex *Exec) closeLoop(li *loopInfo, st *State, g T) {
 
 // frameCond: q is a pre-existing cell of heap h that the contract's `modifies` does not allow to change.
 func (ex *Exec) frameCond(h string, q T) (T, bool) {
+	if strings.HasPrefix(h, "MapDom_") || strings.HasPrefix(h, "MapVal_") {
+		for _, m := range ex.con.Modifies {
+			if m.allMaps {
+				return T{}, false
+			}
+		}
+	}
 	a0 := ex.ghostGet(ex.entry, "alloc")
 	cond := And(Ge(q, IntLit(1)), Le(q, a0))
 	for _, m := range ex.con.Modifies {
